@@ -200,14 +200,15 @@ def build(work, tier):
     # IQ extension: loop-free payload codecs of QXmppIq subclasses and the QXmppIq header (own kits: own lowering profile)
     import iq
     kits = [kit]
-    for fn in (iq.payload_proofs, iq.header_proofs, iq.item_proofs):
+    import ext
+    for fn in (iq.payload_proofs, iq.header_proofs, iq.item_proofs, ext.jmi_proofs, ext.error_proofs):
         k, ps = fn('C01', work, mk_proof, 'roundtrip')
         kits.append(k)
         proofs += ps
     if tier != 'thorough':
         # the finding-restricted runs of the two largest composites only repeat what the member codec's own run reports
         proofs = [p for p in proofs if not (getattr(p, 'finding', None) and p.id.split('_roundtrip')[0] in HEAVY)]
-    text_all = open(os.path.join(QT, 'xml.h')).read() + open(os.path.join(QT, 'conv.h')).read() + open(os.path.join(QT, 'opaque.h')).read() + codec.MODEL_GLUE + iq.TZO_MODEL + iq.HDR_STUBS + iq.presence.STUBS + iq.ITEM_MODEL
+    text_all = open(os.path.join(QT, 'xml.h')).read() + open(os.path.join(QT, 'conv.h')).read() + open(os.path.join(QT, 'opaque.h')).read() + codec.MODEL_GLUE + iq.TZO_MODEL + iq.HDR_STUBS + iq.presence.STUBS + iq.ITEM_MODEL + ext.JMI_STUBS
     npad = sum(t.count('xw_pad(') for k in kits for t in k.texts.values())
     functions, seen = [], set()
     for k in kits:
@@ -222,11 +223,11 @@ def build(work, tier):
     return {
         'proofs': proofs, 'functions': functions, 'dropped': [d for k in kits for d in k.b.dropped], 'fired': fired,
         'hooks': [HOOKS_NOTE % npad],
-        'assumed': ASSUMED + iq.ASSUMED_IQ,
+        'assumed': ASSUMED + iq.ASSUMED_IQ + ext.ASSUMED_EXT,
         'assumes': scan_assumes(text_all),
         'not_covered': [
             'of the QXmppIq family only the header (id, to, from, lang, type) and the payloads of QXmppBindIq, QXmppVersionIq, QXmppNonSASLAuthIq, QXmppEntityTimeIq, QXmppIbbOpenIq / CloseIq / DataIq, QXmppPingIq, QXmppSessionIq are covered; in QXmppIq::parse / toXml the payload hooks, the <error/> sub-object and extended addresses are contract-only stubs; QXmppRosterIq::Item is covered as a bounded stand-in (at most 2 groups), not QXmppRosterIq itself (item list); QXmppStreamInitiationIq is not flat (data form + file info sub-objects) and was left out',
-            'the remaining large stanza / extension classes (QXmppMessage, QXmppPresence (attempted: solver memory), all other QXmppIq subclasses, data forms, pubsub, MIX, Jingle, vCard, roster, disco, MAM, file sharing, trust messages, QXmppElement, QXmppStanza::Error): their parse/toXml are not lowered; the duplicated <error/> of a generic error IQ lives there',
+            'the remaining large stanza / extension classes (QXmppMessage, QXmppPresence (attempted: solver memory), all other QXmppIq subclasses, QXmppMessage::parseExtension as the listed call site of the JMI recogniser, data forms, pubsub, MIX, Jingle, vCard, roster, disco, MAM, file sharing, trust messages, QXmppElement, QXmppStanza::Error): their parse/toXml are not lowered; the duplicated <error/> of a generic error IQ lives there',
             'QXmppStreamFeatures::parse/toXml (12 children incl. two lists; only its member Sasl2::StreamFeature is covered, bounded), StreamOpen::toXml, CsiActive/CsiInactive::toXml (serialisers without a parser), StreamErrorElement::fromDom (std::variant result, no serialiser; only streamErrorToString and its enumFromString instantiation are covered)',
             'character escaping / markup injection: Qt\'s QXmlStreamWriter and QDomDocument (assumption A-XML-RT); QXmpp\'s share, the raw-write inventory (writer->device()->write for XHTML-IM), is not checked here',
             'blank (whitespace-only) strings and strings of XML-illegal characters (outside the property statement and outside A-XML-RT)',
